@@ -32,6 +32,7 @@ def run(ctx):
     maxdrift = 0; maxerr = 0; ncases = 0
     for (backend, build) in variants:
         exe = vlib.build_harness('boot_drv.cpp', vlib.build_lib(build), backend, build)
+        hist = {}     # lam -> [(line, expected bit, gate, kind)] for the key-set history run below
         for lam in (128, 80):
             spec = fmt([lam, 0, 0, 0, 0, 0, 0, 0, 0, ctx.seed * 10 + (1 if lam == 128 else 2)])
             g0 = ints(vlib.run_lines(exe, ['fullkey ' + spec], timeout=1800)[0]); n = g0[0]; s = g0[7:7 + n]
@@ -77,6 +78,7 @@ def run(ctx):
                 cases.append((12, 'CONSTANT', [([0] * n, a), ([0] * n, 0), ([0] * n, 0)], a, 'exact', None))
             lines = ['gatecase %s %d %s' % (spec, gi, ' '.join(fmt(x) + ' ' + str(y) for (x, y) in smp)) for (gi, g, smp, exp, kind, comb) in cases]
             io = vlib.run_lines(exe, lines, timeout=7200)
+            hist[lam] = [(l, c[3], c[1], c[4]) for l, c in zip(lines, cases) if c[4] != 'edge' and c[3] is not None and c[0] != 12]
             # model: the temporary handed to the bootstrapping, then its rounded exponent
             ml = []; mi = []
             for ci, (gi, g, smp, exp, kind, comb) in enumerate(cases):
@@ -123,6 +125,22 @@ def run(ctx):
                         what = ('%s/%s, %d-bit set: %s on %s inputs decrypts to %d, expected %d (output phase %d)' % (backend, build, lam, g, kind, bit, exp_bit, ph)) if kind != 'edge' else \
                                ('%s/%s, %d-bit set: %s with trivial inputs whose combination c_g + alpha*b_a + beta*b_b = %d must round to the %s half: decrypts to %d (the gate\'s constant or coefficients differ)' % (backend, build, lam, g, comb, 'positive' if exp_bit else 'negative', bit))
                         ctx.report('gate-wrong', what, {'case': line[:200000], 'gate': g, 'kind': kind, 'expected_bit': exp_bit, 'observed_bit': bit, 'phase': ph, 'backend': backend, 'build': build, 'secret': s})
+        # (iii) "every cloud key": one thread of one process evaluates under several key sets in turn (smaller n first, then
+        # larger, then back): the truth table must not depend on which key set the thread used before
+        per = 40 if thorough else 14
+        seq = []
+        for lam in (80, 128, 80, 128):
+            pick = rng.sample(hist[lam], min(per, len(hist[lam]))); seq += [(lam,) + x for x in pick]
+        ho = vlib.run_lines(exe, [x[1] for x in seq], timeout=7200)
+        for pos, ((lam, line, exp, g, kind), o) in enumerate(zip(seq, ho)):
+            ctx.count((backend, build, 'history', pos, line[:4000])); ncases += 1
+            if o.startswith('CRASH'):
+                ctx.report('gate-crash-history', '%s/%s: %s under the %d-bit key set died after the same thread had used another key set (position %d of the sequence 80,128,80,128): %s' % (backend, build, g, lam, pos, o[:80]),
+                           {'sequence': [x[1][:200000] for x in seq[:pos + 1]], 'backend': backend, 'build': build, 'history': True}); break
+            r = ints(o)
+            if r[1] != exp:
+                ctx.report('gate-wrong-after-other-keyset', '%s/%s: %s on %s inputs under the %d-bit key set decrypts to %d, expected %d, after the same thread evaluated gates under another key set (position %d of the sequence 80,128,80,128 x %d gates); the same case alone is right' % (backend, build, g, kind, lam, r[1], exp, pos, per),
+                           {'sequence': [x[1][:200000] for x in seq[:pos + 1]], 'gate': g, 'kind': kind, 'expected_bit': exp, 'observed_bit': r[1], 'backend': backend, 'build': build, 'history': True}); break
     ctx.cov['gate_cases'] = ncases
     ctx.hypotheses['max |modulus-switch drift| on non-edge cases (units of 2^-32; gate margin is 2^28)'] = maxdrift
     ctx.hypotheses['max |output phase - (+-1/8)| (units of 2^-32; must stay below 2^29)'] = maxerr
@@ -131,6 +149,10 @@ def run(ctx):
 def replay(ctx, data):
     b = data.get('build', 'optim'); be = data.get('backend', 'spqlios-fma')
     exe = vlib.build_harness('boot_drv.cpp', vlib.build_lib(b), be, b)
+    if data.get('history'):
+        o = vlib.run_lines(exe, data['sequence'], timeout=1800)[-1]
+        print('gate %s after a sequence of %d gates under alternating key sets: expected bit %s, recorded %s; implementation now: phase, bit = %s' % (data.get('gate'), len(data['sequence']), data.get('expected_bit'), data.get('observed_bit'), o.split()[:2]))
+        return 0
     if 'case' not in data: print(json.dumps(data)[:1500]); return 0
     o = vlib.run_lines(exe, [data['case']], timeout=1800)[0]
     print('gate %s, %s inputs: expected bit %s, recorded %s; implementation now: phase, bit = %s' % (data.get('gate'), data.get('kind'), data.get('expected_bit'), data.get('observed_bit'), o.split()[:2]))
